@@ -23,7 +23,7 @@ def sem_errors(a):
         return "syntax-error"          # C04's business; counted, not reported here
     if not a.startswith("OK"):
         return a.split()[0].lower() if a else "empty"
-    ds = [d.split(":")[1] for d in a.split(" |")[-1].split() if d.endswith(":2")]
+    ds = [m.group(1) for m in re.finditer(r"D:(.*?):2(?= D:|$)", a.split(" |")[-1].strip())]
     return ("error:" + ds[0]) if ds else None          # the first error (type checking ends at the first one)
 
 
@@ -101,8 +101,8 @@ def typed_programs(rng, n):
 def run(chk, only=None):
     chk.coverage["trusted_base"] = pv.TRUSTED_COMMON + [
         "gcc 12 (-std=c11 -pedantic-errors -Wall -Werror=incompatible-pointer-types -fsyntax-only) as the oracle of well-typedness; generators gen/cgen.py and checks/c11.py:typed_programs",
-        "hand-written model coq/C11Model.v of TypeChecker::typesAreCompatible over type terms (tied by correspondence: every ordered pair of declared objects of generated programs, four flag settings)",
-        "NOT modelled: the per-operator constraints and assignability (decided by the differential check only)"]
+        "hand-written model coq/C11Model.v of TypeChecker::typesAreCompatible and isTypeAssignableFromOtherType over type terms (tied by correspondence: every ordered pair of declared objects of generated programs, four flag settings + assignability)",
+        "NOT modelled: the per-operator constraints (decided by the differential check only)"]
     chk.assumptions = ["a program is well-typed iff gcc accepts it under the flags of the property; only such programs are used"]
     res = chk.prove(["Properties_C11.v"], extra_targets=["Entry_C11.vo"])
     proof_ok = all(ok for ok, _ in res.values())
@@ -233,7 +233,7 @@ def run(chk, only=None):
             decls = text[:text.rfind("{")] if "{" in text else text
             enum_objs = set(re.findall(r"enum\s+\w+\s+(\w+)", decls)) | set(re.findall(r"\b([A-Z]\w*)\b(?=\s*[,=}])", " ".join(re.findall(r"enum\s*\w*\s*\{([^}]*)\}", decls))))
             arr_objs = set(re.findall(r"(\w+)\s*\[\d*\]", decls))
-            if c in ("error:TypeChecker-012", "error:TypeChecker-013", "error:TypeChecker-014", "error:TypeChecker-001", "error:TypeChecker-002", "error:TypeChecker-000") and (stm_ids & enum_objs):
+            if (c.startswith("error:TypeChecker-0") or c.startswith("error:Resolver")) and (stm_ids & enum_objs):
                 key = "operand:of-enumerated-type"
             elif c in ("error:TypeChecker-000", "error:TypeChecker-001", "error:TypeChecker-004") and (stm_ids & arr_objs):
                 key = "operand:array-in-binary-operator"
